@@ -47,6 +47,7 @@ MODULE_ATTRS = {
     ("dt", "date"): ClsV("date"), ("dt", "datetime"): ClsV("datetime"),
     ("numbers", "Number"): ClsV("numbers.Number"), ("numbers", "Real"): ClsV("numbers.Real"),
     ("numbers", "Integral"): ClsV("numbers.Integral"),
+    ("collections", "abc"): ModV("collections.abc"), ("collections.abc", "Sequence"): ClsV("Sequence"),
 }
 
 
@@ -485,6 +486,13 @@ def h_dict(I, st, fv, args, kwargs, ctx):
     return [(st, r)]
 
 
+def h_enumerate(I, st, fv, args, kwargs, ctx):
+    its = I.known_items(st, args[0])
+    if its is None or len(args) != 1 or kwargs:
+        raise OutOfReach("enumerate over a sequence of unknown length")
+    return [(st, TupV([TupV([Conc(i), v]) for i, v in enumerate(its)]))]
+
+
 def h_zip(I, st, fv, args, kwargs, ctx):
     lists = [I.known_items(st, a) for a in args]
     if all(l is not None for l in lists):
@@ -619,6 +627,7 @@ def install(I):
     L["new:list"] = h_list
     L["new:dict"] = h_dict
     L["zip"] = h_zip
+    L["enumerate"] = h_enumerate
     L["map"] = h_map
     L["print"] = h_noop
     L["warnings.warn"] = h_noop
